@@ -558,6 +558,93 @@ def r17_7(ctx, rep):
         raise MechanismMissing(R, "expected the stores for a member and for its negation into the canonical map, found %d" % n)
 
 
+@SPEC.rule(
+    "R17.8",
+    "a copy shares no container with its source: every attribute copy() sets on the new relation is given a new object (a .copy(), a constructor "
+    "call, a comprehension, or is filled element by element) — never the source's own set or dict, whatever its values are: add() and remove() "
+    "insert into and delete from these containers themselves",
+)
+def r17_8(ctx, rep):
+    from ..pyutil import inlined
+    R = "R17.8"
+    cp = ctx.func(AR, CLS + ".copy", R)
+    site = AR + ":%s.copy" % CLS
+    cvar = None
+    for s_ in walk_local(cp):
+        if isinstance(s_, ast.Assign) and isinstance(s_.value, ast.Call) and (call_name(s_.value) or "").endswith(CLS):
+            cvar = s_.targets[0].id
+    if cvar is None:
+        raise MechanismMissing(R, "copy() does not allocate an AliasRelation")
+    n = 0
+    for s_ in walk_local(cp):
+        if isinstance(s_, ast.Assign) and isinstance(s_.targets[0], ast.Attribute) and is_name(s_.targets[0].value, cvar):
+            n += 1
+            v = inlined(s_.value, cp.body, keep={cvar})
+            shared = isinstance(v, (ast.Attribute, ast.Name)) and (norm(v).startswith("self.") or norm(v) == "self")
+            rep.ob(R, site, "attribute %s gets an object of its own" % s_.targets[0].attr, not shared,
+                   "`%s` makes the copy and its source use one and the same container: an add() or remove() on either is seen by the other" % norm(s_)[:80])
+        if isinstance(s_, ast.Expr) and isinstance(s_.value, ast.Call) and "__dict__" in norm(s_.value):
+            n += 1
+            rep.ob(R, site, "no wholesale __dict__ transfer", False, "`%s` hands the source's containers to the copy" % norm(s_)[:80])
+    if n < 2:
+        raise MechanismMissing(R, "fewer than 2 attribute assignments on the new relation found in copy()")
+
+
+@SPEC.rule(
+    "R17.9",
+    "remove() retires exactly the class it empties: the name taken out of the set of canonical variables is known to be in it — every path to "
+    "that statement has passed the test `<name> in <canonical set>` — so a class is never emptied (its alias sets and map entries deleted) "
+    "while its canonical name stays behind and keeps being iterated",
+)
+def r17_9(ctx, rep):
+    from ..cfg import CFG, assume_truth, must_facts
+    R = "R17.9"
+    fn = ctx.func(AR, CLS + ".remove", R)
+    site = AR + ":%s.remove" % CLS
+    cfg = CFG(fn, R)
+    # the canonical set: the attribute behind the canonical_variables property
+    cls = ctx.cls(AR, CLS, R)
+    canon = None
+    for m in cls.body:
+        if isinstance(m, ast.FunctionDef) and m.name == "canonical_variables":
+            for r_ in ast.walk(m):
+                if isinstance(r_, ast.Return) and isinstance(r_.value, ast.Attribute) and is_name(r_.value.value, "self"):
+                    canon = r_.value.attr
+    if canon is None:
+        raise MechanismMissing(R, "the attribute behind canonical_variables was not found")
+    removals = []
+    for x in cfg.stmts():
+        for c in calls(x.ast):
+            if isinstance(c.func, ast.Attribute) and c.func.attr in ("remove", "discard") and norm(c.func.value) == "self." + canon and c.args:
+                removals.append((x, c))
+    deletes = [x for x in cfg.stmts() if isinstance(x.ast, ast.Delete)]
+    if not removals or not deletes:
+        raise MechanismMissing(R, "remove() does not take a name out of self.%s / does not delete entries" % canon)
+
+    for x, c in removals:
+        q = "%s in self.%s" % (norm(c.args[0]), canon)
+
+        def transfer(node, facts, q=q):
+            if node.kind == "assume":
+                t = assume_truth(node, q)
+                if t is True:
+                    return facts | {"member"}
+                if t is False:
+                    return facts - {"member"}
+            return facts
+
+        IN = must_facts(cfg, transfer)
+        rep.ob(R, site, "`%s` removes a name known to be canonical" % norm(c)[:60], "member" in (IN.get(x.id) or frozenset()),
+               "the statement is reached on a path that has not established `%s`: the class of a non-canonical member is deleted while its "
+               "canonical name stays in the set (iteration then yields a class without members)" % q)
+    # every path that deletes entries also retires the canonical name
+    rm_ids = {x.id for x, _ in removals}
+    for d in deletes:
+        w = cfg.must_pass(d.id, cfg.exit, rm_ids)
+        rep.ob(R, site, "after `%s` the canonical name is retired" % norm(d.ast)[:50], w is None,
+               "remove() can return after deleting entries without taking the canonical name out of self.%s" % canon, path=cfg.describe(w) if w else "")
+
+
 # -- seeded variants ---------------------------------------------------------
 from ._mut import delete_stmt_where, replace_in_func  # noqa: E402
 
